@@ -46,7 +46,7 @@ pub fn disp_net_opts(rng: &mut Rng) -> NetOpts {
     o.v_min = 8.0;
     o.p_cat = 0.0;
     o.p_headings = 0.3;
-    o.p_lockout = *rng.pick(&[0.0, 0.0, 0.15]);
+    o.p_lockout = *rng.pick(&[0.0, 0.15, 0.5]);
     o.speed_layout = rng.usize(0, 1);
     o.p_params = 0.0;
     o.zero_len = false;
@@ -54,10 +54,45 @@ pub fn disp_net_opts(rng: &mut Rng) -> NetOpts {
     o
 }
 
+/// Mutual exclusion between segments that are not neighbours (an interlocking two gaps apart): each
+/// direction of the one segment lists both directions of the other. Only between gaps separated by
+/// more than the longest generated train, so that no train holds both itself.
+fn add_remote_lockouts(rng: &mut Rng, net: &mut GenNet) {
+    let n = net.gaps.len();
+    if n < 4 || !net.has_flips {
+        return;
+    }
+    for _ in 0..rng.usize(1, 3) {
+        let g = rng.usize(0, n - 3);
+        let between: f64 = net.gaps[g + 1].iter().map(|l| net.links[*l as usize].length.value).fold(f64::INFINITY, f64::min);
+        if between < 2600.0 {
+            continue;
+        }
+        let x = *rng.pick(&net.gaps[g]) as usize;
+        let y = *rng.pick(&net.gaps[g + 2]) as usize;
+        let (xf, yf) = (net.links[x].idx_flip.idx(), net.links[y].idx_flip.idx());
+        if xf == 0 || yf == 0 || net.links[x].link_idxs_lockout.iter().any(|l| l.idx() == y) {
+            continue;
+        }
+        for (a, b1, b2) in [(x, y, yf), (xf, y, yf), (y, x, xf), (yf, x, xf)] {
+            // listing order varies: the same-direction partner first or last
+            let (b1, b2) = if rng.chance(0.5) { (b1, b2) } else { (b2, b1) };
+            net.links[a].link_idxs_lockout.push(altrios_core::track::LinkIdx::new(b1 as u32));
+            net.links[a].link_idxs_lockout.push(altrios_core::track::LinkIdx::new(b2 as u32));
+        }
+        if !net.flags.contains(&"remote_lockout") {
+            net.flags.push("remote_lockout");
+        }
+    }
+}
+
 pub fn instance(rng: &mut Rng, max_trains: usize) -> Option<Instance> {
     for _ in 0..30 {
         let o = disp_net_opts(rng);
-        let net = gn::network(rng, &o);
+        let mut net = gn::network(rng, &o);
+        if rng.chance(0.25) {
+            add_remote_lockouts(rng, &mut net);
+        }
         if gn::validate(&net.links).is_err() {
             continue;
         }
